@@ -60,6 +60,12 @@ class Material(data_input.DataInputAbstract, Numbered_MCNP_Object):
                 )
             for isotope_node, fraction in iterator:
                 isotope = Isotope(node=isotope_node)
+                # the second entry of every pair is a number (not a jump, not text)
+                if not isinstance(fraction.value, (int, float)):
+                    raise MalformedInputError(
+                        input,
+                        f"Material definitions for material: {self.number} must give a number as the fraction of {isotope_node.value}; {fraction.value} was given",
+                    )
                 fraction.is_negatable_float = True
                 if not set_atom_frac:
                     set_atom_frac = True
